@@ -199,7 +199,8 @@ impl Family for C19Family {
         for o in &rec.ops {
             let kind = &op_spec(c, o).kind;
             if matches!(kind, OpKind::Authenticate(_) | OpKind::GetAssertion(_)) && o.result.is_ok() {
-                if let (Some(id), Some(ctr)) = (returned_id(o), reported_counter(o)) {
+                let signer = signer_of(kind, o, rec.initial_store.iter().chain(rec.final_store.iter())).map(|s| s.id.clone());
+                if let (Some(id), Some(ctr)) = (signer.or_else(|| returned_id(o)), reported_counter(o)) {
                     by_cred.entry(id).or_default().push((o.actor, o.idx, ctr));
                 }
             }
